@@ -21,12 +21,19 @@ def memo_check(run, pkg, ns):
     for n1, n2 in itertools.permutations(ns, 2):
         def summary(n):
             res = core.explore(lambda: _table_terms(SymMode(pkg), n))
+            if len(res) != 1 or res[0].kind != "ok":
+                raise core.Unsupported("the computer does not run on a single path under the model")
             return res[0].value
-        a = summary(n1)
-        snap = [np.array(np.asarray(x), copy=True) for x in bounds._get_sub_super_coalition_structure(n1)]
-        summary(n2)
-        b = summary(n1)
-        after = bounds._get_sub_super_coalition_structure(n1)
+        try:
+            a = summary(n1)
+            snap = [np.array(np.asarray(x), copy=True) for x in bounds._get_sub_super_coalition_structure(n1)]
+            summary(n2)
+            b = summary(n1)
+            after = bounds._get_sub_super_coalition_structure(n1)
+        except (core.Unsupported, core.Undecided) as e:
+            run.engine_failures.append(("memo", f"{type(e).__name__}: {e}"))
+            run.fallbacks["memo"] = lambda: native_memo_check(run, ns)
+            return
         count += 1
         same_terms = all(x.z().eq(y.z()) for x, y in zip(a, b))
         same_cache = all(_arr_equal(x, y) for x, y in zip(snap, after))
@@ -40,6 +47,32 @@ def memo_check(run, pkg, ns):
                            "exhaustive": True})
     run.native_evals += count
     run.native_distinct.update(("memo", i) for i in range(count))
+
+
+def native_memo_check(run, ns):
+    """Bounded stand-in for the memoisation clause: the real package, interleaved player counts and knowledge sets;
+    the memoised arrays must not change and results must not depend on what was computed before."""
+    import numpy as np
+    from pyvc.mode import native_pkg
+    from spec.sets import minimal
+    P = native_pkg()
+    game_m, bounds, co = P.mod("game"), P.mod("bounds"), P.mod("coalitions")
+    ok = True
+    for n1, n2 in itertools.permutations(ns, 2):
+        snap = [np.array(x, copy=True) for x in bounds._get_sub_super_coalition_structure(n1)]
+        for n in (n1, n2, n1):
+            v = gen.superadditive_game(run.rng, n, kind="int")
+            for K in (sorted(gen.knowledge(run.rng, n, p=0.2)), sorted(gen.knowledge(run.rng, n, p=0.7))):
+                g = game_m.IncompleteCooperativeGame(n, bounds.BOUNDS["superadditive_cached"])
+                g.set_known_values([v[c] for c in K], [co.Coalition(c) for c in K])
+                g.compute_bounds()
+        after = bounds._get_sub_super_coalition_structure(n1)
+        if not all(np.array_equal(a, b) for a, b in zip(snap, after)):
+            ok = False
+            run._report_violation(f"memo.native[n1={n1},n2={n2}]/cache_unmodified", S.sc_sa_equiv, {"n": n1}, {"n1": n1, "n2": n2}, True,
+                                  detail={"layer": "bounded", "kind": "the memoised coalition structure was modified in place"})
+            break
+    return ok
 
 
 def _arr_equal(x, y):
